@@ -37,6 +37,9 @@ def cases(tier, cfg, seed):
         add(Ein(T, [[0, 1, 2], [1, 2]], {0: 3, 1: 2, 2: 5}, tag='ct', fname='contraction'))
         add(Ein(T, [[0], [0]], {0: 7}, call='inner(A,B)', tag='inner'))
         add(Ein(T, [[0, 1], [0, 1]], {0: 3, 1: 5}, call='inner(A,B)', tag='inner'))
+        # tensor / expression operand forms of inner (separate overloads)
+        add(Ein(T, [[0], [0]], {0: 7}, call=f'inner(A,B+{T}(0))', tag='inner_te')); add(Ein(T, [[0], [0]], {0: 7}, call=f'inner(A+{T}(0),B)', tag='inner_et'))
+        add(Ein(T, [[0, 1], [0, 1]], {0: 3, 1: 5}, call=f'inner(A+{T}(0),B+{T}(0))', tag='inner_ee'))
         add(Ein(T, [[0], [1]], {0: 3, 1: 5}, call='outer(A,B)', tag='outer'))
         add(Ein(T, [[0, 1], [2]], {0: 2, 1: 3, 2: 4}, call='outer(A,B)', tag='outer'))
         add(Ein(T, [[0, 0]], {0: 4}, tag='single'))
